@@ -10,8 +10,9 @@
    Every theorem quantifies over ALL untyped trees / decoded definitions, options, initial environments and over
    every value of the library parameters (cron parse verdict, signal validity, regexp compilability, parameter
    tokenizer, command outputs, pattern matcher).  What remains beside the full statements:
-     - one hypothesis on the cron library in the generic no-panic theorems (it panics only on a bare TZ= / CRON_TZ=
-       prefix); it is PROVED for the Cron model (C09), giving C13_load_no_panic_cron without any hypothesis;
+     - two hypotheses on libraries in the no-panic theorems: the cron parser panics only on a bare TZ= / CRON_TZ=
+       prefix - PROVED for the Cron model (C09), see C13_load_no_panic_cron; a parameter value matched by the quoted
+       alternative of the tokenizer's regular expression holds its two quotes (value[1:len-1] of fix 0f1faec);
      - `build` taken alone still assumes `no_nil d`: that is exactly what decode guarantees (C13_decode_no_nil);
      - F13f (executor config holding a mapping inside a list or NaN / Inf => status not serialisable) is NOT
        repaired: `_refuted` witness + `_partial` theorem with the excluded class as premise. *)
@@ -24,17 +25,20 @@ Open Scope list_scope.
 (* ---- never crashes --------------------------------------------------------------------------------------- *)
 (* decode + build over EVERY untyped tree, every entry point (options) *)
 Theorem C13_load_no_panic :
-  forall (cron : string -> cronv), (forall s, cron s = CronPanic -> tz_only s = true) ->
-  forall (sig_ok : string -> bool) (tokenize : string -> list (string * string))
-         (sh : string -> option string) (o : opts) (root : yv) (e : envt),
+  forall (cron : string -> cronv) (sig_ok : string -> bool) (tokenize : string -> list (string * string))
+         (sh : string -> option string),
+  (forall s, cron s = CronPanic -> tz_only s = true) ->
+  (forall s n v, In (n, v) (tokenize s) -> quoted_wf v) ->
+  forall (o : opts) (root : yv) (e : envt),
   outcome (load_tree cron sig_ok tokenize sh o root e) <> Panic.
 Proof. exact load_no_panic. Qed.
 Print Assumptions C13_load_no_panic.
 
-(* the same with the cron parser of the Cron model: no hypothesis left *)
+(* the same with the cron parser of the Cron model: the cron hypothesis is proved, the tokenizer one remains *)
 Theorem C13_load_no_panic_cron :
-  forall (sig_ok : string -> bool) (tokenize : string -> list (string * string)) (sh : string -> option string)
-         (o : opts) (root : yv) (e : envt),
+  forall (sig_ok : string -> bool) (tokenize : string -> list (string * string)) (sh : string -> option string),
+  (forall s n v, In (n, v) (tokenize s) -> quoted_wf v) ->
+  forall (o : opts) (root : yv) (e : envt),
   outcome (load_tree cron_of_parse sig_ok tokenize sh o root e) <> Panic.
 Proof. exact load_no_panic_cron. Qed.
 Print Assumptions C13_load_no_panic_cron.
@@ -51,6 +55,7 @@ Theorem C13_build_no_panic :
   forall (cron : string -> cronv) (sig_ok : string -> bool) (tokenize : string -> list (string * string))
          (sh : string -> option string),
   (forall s, cron s = CronPanic -> tz_only s = true) ->
+  (forall s n v, In (n, v) (tokenize s) -> quoted_wf v) ->
   forall (o : opts) (d : definition) (base : list string),
   no_nil d = true ->
   forall e : envt, outcome (build cron sig_ok tokenize sh o d base e) <> Panic.
